@@ -108,6 +108,9 @@ func (s *Sim) recvPoint(n *RecvNode, label, path string) {
 	if label == "stage.receive.recorded" {
 		s.net.recordedOnCurrent()
 	}
+	if label == "stage.process.hashed" {
+		n.pending.done(path) // recovery's (or anybody's) validation of this file has happened
+	}
 	if act, ok := s.pointActions[label]; ok {
 		act(n, path)
 	}
